@@ -1,3 +1,47 @@
-"""special.py - properties decided by engines other than the harness job table."""
-HANDLERS = {}
+"""special.py - properties decided (partly) by engines other than the harness job table."""
+import importlib.machinery, json, os, sys, time
+
+VERIF = os.path.dirname(os.path.dirname(os.path.abspath(__file__)))
+
+
+def _check_mod():
+    return sys.modules.get("__main__")
+
+
+def c12(prop, tier, seed, a):
+    from . import c12_statics, findings
+    t0 = time.time()
+    chk = _check_mod()
+    st = c12_statics.run(prop, tier, seed, a)
+    extra = {
+        "static_inventory": {"translation_units": st["tus"], "writable_static_objects": len(st["objects"]),
+                             "with_write_references": sum(1 for o in st["objects"] if o.get("written")),
+                             "reachability_queries": st["queries"], "known": st["known"],
+                             "violations": [{"object": v["object"], "tu": v["tu"]} for v in st["violations"]],
+                             "build_errors": st["errors"][:10], "secs": round(st["secs"], 1)},
+        "assumptions_extra": ["C12 is decided through its schedule-independent reformulation: no call leaves a footprint in static "
+                              "storage; real interleavings are not explored (CBMC refuses pointer-rich threaded programs)",
+                              "reachability of a writing instruction is asked with the containing function as entry point and "
+                              "fully nondeterministic arguments (no caller precondition)"],
+    }
+    jobs = chk.collect_jobs(prop, tier, getattr(a, "fn", None), None)
+    for l in st["lines"]:
+        print(l)
+    rc = 1 if st["violations"] else 0
+    if jobs:
+        rc2, _ = chk.run_jobs(prop, tier, seed, jobs, a, t0, extra_evidence=extra)
+        rc = rc or rc2
+        if st["violations"]:
+            # evidence written by run_jobs counts only job violations: patch the total
+            p = os.path.join(VERIF, "evidence", prop + ".json")
+            try:
+                ev = json.load(open(p))
+                ev["violations"] = ev.get("violations", 0) + len(st["violations"])
+                json.dump(ev, open(p, "w"), indent=1)
+            except Exception:
+                pass
+    return rc
+
+
+HANDLERS = {"C12": c12}
 REPLAYERS = {}
